@@ -194,7 +194,7 @@ pub fn run(ctx: &Ctx) -> i32 {
     });
     // 4. UTF-8: all 3-byte sequences (thorough) / boundary alphabet (quick), 4-byte over the boundary alphabet
     let b19: Vec<u8> = vec![0x00, 0x41, 0x7F, 0x80, 0x8F, 0x90, 0x9F, 0xA0, 0xBF, 0xC0, 0xC1, 0xC2, 0xDF, 0xE0, 0xED, 0xEF, 0xF0, 0xF4, 0xF5];
-    if ctx.tier == Tier::Thorough {
+    {
         ctx.par(256, |c, w| {
             let a = c as u8;
             w.label(|| format!("utf-8 triples first byte {}", a));
@@ -206,7 +206,7 @@ pub fn run(ctx: &Ctx) -> i32 {
             }
         });
     }
-    for len in 3..=4usize {
+    for len in 3..=ctx.tier.pick(4usize, 5) {
         let fam = Family::Over { alpha: b19.clone(), min: len, max: len };
         let n = fam.size();
         ctx.par((n + 1023) / 1024, |c, w| {
@@ -226,8 +226,8 @@ pub fn run(ctx: &Ctx) -> i32 {
         "distinct_nontrivial": ctx.counter("nontrivial"),
         "rule": format!("write side: all 1,000,000 ECI numbers through encode_eci: codewords after 241 equal the closed formulas of ISO/IEC 16022 Table 6, are read back (hook eci_spans) as the same number, decode_data reports ECICode; \
 read side: every designator sequence of the length its first codeword demands (127 + 64*256 + 16*65536) and every truncation: accepted with the right number iff well formed; character sets: ECI none/3/11/13/26/27 x all 256 bytes x ASCII(upper shift) and Base256 carriage, \
-all byte pairs in Base256 (one fifth in ASCII), UTF-8 sequences of length 3..4 over a 19-value boundary alphabet{}: decode_str equals ISO 8859-1/-9/-11 by rule resp. passes exactly the RFC 3629 / 7-bit sequences, CharsetError elsewhere. All cases distinct; \
-non-trivial = number round trip, malformed designator rejected, or defined character mapped.", if ctx.tier == Tier::Thorough { " and all 16.7 M 3-byte sequences" } else { "" }),
+all byte pairs in Base256 (one fifth in ASCII), all 16.7 M 3-byte sequences and all sequences of length 3..4 over a 19-value boundary alphabet under ECI 26{}: decode_str equals ISO 8859-1/-9/-11 by rule resp. passes exactly the RFC 3629 / 7-bit sequences, CharsetError elsewhere. All cases distinct; \
+non-trivial = number round trip, malformed designator rejected, or defined character mapped.", if ctx.tier == Tier::Thorough { " (thorough: boundary alphabet also at length 5)" } else { "" }),
         "exhaustive": true,
         "wellformed_designators_beyond_999999_accepted_not_judged": ctx.counter("wellformed_beyond_999999"),
         "charset_errors": ctx.counter("charset_error"),
